@@ -101,7 +101,7 @@ MapWalk(st, rt, tblVA, pg, lvl, leaf, fls) ==
   IN IF ~loc.ok THEN [st EXCEPT !.err = "FAULT"]
      ELSE LET e == st.m[loc.f][loc.j] IN
        IF lvl = 4
-       THEN [st EXCEPT !.m[loc.f][loc.j] = [f |-> leaf, fl |-> IF Bug = "StaleBitsOnRemap" THEN e.fl \cup fls
+       THEN [st EXCEPT !.m[loc.f][loc.j] = [f |-> IF Bug = "RemapKeepsFrame" /\ Present(e) THEN e.f ELSE leaf, fl |-> IF Bug = "StaleBitsOnRemap" THEN e.fl \cup fls
                                                            ELSE IF Bug = "LeafForcedPresent" THEN fls \cup {0} ELSE fls],
                        !.flush = IF Bug = "NoFlushOnMap" THEN @ ELSE Append(@, pg)]
        ELSE IF 7 \in e.fl THEN [st EXCEPT !.err = "EHUGE"]                  \* huge-page bit in an UPPER-level entry
